@@ -35,8 +35,11 @@ import hashlib
 import json
 import os
 import random
+import re
+import signal
 import socket
 import struct
+import sys
 import traceback
 
 from vlib import boot
@@ -144,7 +147,7 @@ def materialise(spec):
             return r.randbytes(ln)
         if alpha == 'benc':
             a = b'ilde0123456789:-' + b'ilde01:'
-            return bytes(r.choice(a) for _ in range(ln))
+            return bytes(r.choices(a, k=ln))
         if alpha == 'dgprefix':           # a valid header followed by noise
             head = rb.encode({0: 0, 1: H('r', seed)[:20], 2: H('n', seed)}, int_keys=True)[:-1]
             return head + r.randbytes(max(0, ln - len(head)))
@@ -157,12 +160,14 @@ def spec_of(data):
 
 
 # ------------------------------------------------------------------------------ recogniser
-def _conv_keys(d):
+def _conv_keys(d, first_wins=False):
     out, collide = {}, False
     for k, v in d.items():
         kk = str(k).encode() if isinstance(k, int) else k
         if kk in out:
             collide = True
+            if first_wins:
+                continue
         out[kk] = v
     return out, collide
 
@@ -175,14 +180,25 @@ def classify(data):
         prim, _, quirks = rb.decode_ex(data, strict=False, int_keys=True)
     except rb.BencodeError as e:
         return 'malformed', ('truncated' if e.reason in ('truncated', 'empty') else 'bad-syntax'), info
+    res = _classify_prim(prim, quirks, info)
+    if 'dict-duplicate-key' in quirks or (isinstance(prim, dict) and _conv_keys(prim)[1]):
+        # which value of a duplicated key wins is arguable: judged malformed only if it is malformed either way
+        info2 = {'kind': None, 'token_malformed': False}
+        prim2 = rb.decode_ex(data, strict=False, int_keys=True, dup='first')[0]
+        res2 = _classify_prim(prim2, quirks, info2, first_wins=True)
+        if res[0] == 'malformed' and res2[0] == 'malformed':
+            return res
+        return 'ambiguous', 'duplicate-keys(which-value-wins-is-arguable)', {'kind': info.get('kind'), 'token_malformed': False}
+    return res
+
+
+def _classify_prim(prim, quirks, info, first_wins=False):
     if not isinstance(prim, dict):
         return 'malformed', 'not-a-dict', info
-    conv, collide = _conv_keys(prim)
+    conv, collide = _conv_keys(prim, first_wins)
     amb = []
     if quirks:
         amb.append('quirk:' + sorted(quirks)[0])
-    if collide:
-        amb.append('int-and-string-key-collide')
     t = conv.get(b'0')
     if not isinstance(t, int) or t not in (0, 1, 2):
         return 'malformed', 'bad-packet-type', info
@@ -238,7 +254,7 @@ def classify(data):
                 return 'malformed', 'find-key-wrong-length', info
             if len(pos) > 1:
                 amb.append('find-extra-args')
-            if b'p' in kw:
+            if b'p' in kw and m == b'findValue':
                 if not isinstance(kw[b'p'], int):
                     return 'malformed', 'page-not-int', info
                 if kw[b'p'] < 0:
@@ -508,6 +524,133 @@ TEMPLATE_NAMES = ['ping', 'store', 'findNode', 'findValue', 'findValue-stored-p1
 REQUEST_TEMPLATES = TEMPLATE_NAMES[:5]
 
 
+# ------------------------------------------------------------------------------ termination watchdog
+class _Timeout(BaseException):
+    pass
+
+
+def _alarm(signum, frame):
+    raise _Timeout()
+
+
+def call_with_watchdog(fn, seconds):
+    """-> ('ok', result) | ('raised', exc) | ('timeout', exc with traceback).  SIGALRM based: pure-Python loops
+    are interruptible.  Only a first filter -- a timeout is CONFIRMED by traced_decode before it is judged."""
+    old = signal.signal(signal.SIGALRM, _alarm)
+    try:
+        signal.setitimer(signal.ITIMER_REAL, seconds)
+        try:
+            return 'ok', fn()
+        finally:
+            signal.setitimer(signal.ITIMER_REAL, 0)
+    except _Timeout as e:
+        return 'timeout', e
+    except BaseException as e:  # noqa
+        if isinstance(e, (KeyboardInterrupt, SystemExit, MemoryError)):
+            raise
+        return 'raised', e
+    finally:
+        signal.signal(signal.SIGALRM, old)
+
+
+MAX_TRACE_LINES = 3_000_000      # a terminating parse of <= 64 KiB executes well under 1e6 lines
+_WHILE_LINES = {}
+
+
+def _while_lines(code):
+    """line numbers of `while` statements in the file of `code` (only a while loop -- or recursion, which ends in
+    RecursionError -- can fail to terminate; for-loops over finite containers cannot)"""
+    fn = code.co_filename
+    if fn not in _WHILE_LINES:
+        import ast
+        try:
+            with open(fn, 'rb') as f:
+                tree = ast.parse(f.read())
+            _WHILE_LINES[fn] = {n.lineno for n in ast.walk(tree) if isinstance(n, ast.While)}
+        except (OSError, SyntaxError):
+            _WHILE_LINES[fn] = set()
+    return _WHILE_LINES[fn]
+
+
+def traced_decode(data):
+    """run the real decode_datagram under sys.settrace, bounded by executed LINES (deterministic, load independent).
+    -> ('returned'|'raised', None) | ('cycle', detail) | ('line-budget', detail).
+    'cycle': inside ONE frame of a lbry function the head of a `while` loop was reached again with all integer locals
+    identical to an earlier visit (the decoder's only loop state is its index) AND the call then still had not returned
+    after max(200 000, 40 x len(data)) further lines."""
+    from lbry.dht.serialization.datagram import decode_datagram
+    root = _realpath(boot.REPO) + os.sep + 'lbry' + os.sep
+    seen = {}
+    count = [0]
+    found = []
+    cand = []
+
+    class _Stop(BaseException):
+        pass
+
+    def local(frame, event, arg):
+        if event == 'line':
+            count[0] += 1
+            if cand:
+                if count[0] > cand[0][0]:
+                    found.append(('cycle', cand[0][1]))
+                    raise _Stop()
+                return local
+            if count[0] > MAX_TRACE_LINES:
+                found.append(('line-budget', f'{MAX_TRACE_LINES} lines executed without returning; innermost '
+                                             f'{frame.f_code.co_name}:{frame.f_lineno}'))
+                raise _Stop()
+            if frame.f_lineno in _while_lines(frame.f_code):
+                ints = tuple(sorted((k, v) for k, v in frame.f_locals.items() if isinstance(v, int) and not isinstance(v, bool)))
+                fs = seen.setdefault(id(frame), set())
+                st = (frame.f_lineno, ints)
+                if st in fs and ints:
+                    cand.append((count[0] + max(200_000, 40 * len(data)),
+                                 f'{frame.f_code.co_name} (line {frame.f_lineno}: `while` head) reached again in the same frame '
+                                 f'with identical integer locals {dict(ints)}; still running '
+                                 f'{max(200_000, 40 * len(data))} lines later'))
+                fs.add(st)
+        elif event == 'return':
+            seen.pop(id(frame), None)
+        return local
+
+    def tracer(frame, event, arg):
+        if event == 'call' and _realpath(frame.f_code.co_filename).startswith(root):
+            return local
+        return None
+    sys.settrace(tracer)
+    try:
+        decode_datagram(data)
+        out = ('returned', None)
+    except _Stop:
+        out = found[0]
+    except BaseException as e:  # noqa
+        if isinstance(e, (KeyboardInterrupt, SystemExit, MemoryError)):
+            raise
+        out = ('raised', None)
+    finally:
+        sys.settrace(None)
+    return out
+
+
+_NEG_LEN = re.compile(rb'-\d+:')     # only decides WHEN the (slow) traced run is done up front; never the verdict
+_HANG_FED = [0]
+_IN_REPRO = [False]
+
+GROUP = {
+    'truncated': 'not-bencode', 'bad-syntax': 'not-bencode', 'not-a-dict': 'not-bencode',
+    'rpc_id-not-bytes': 'field-type', 'node_id-not-bytes': 'field-type', 'find-key-not-bytes': 'field-type',
+    'store-hash-not-bytes': 'field-type', 'args-not-list': 'field-type', 'method-not-bytes': 'field-type',
+    'error-field-not-bytes': 'field-type', 'page-not-int': 'field-type', 'store-port-not-int': 'field-type',
+    'rpc_id-wrong-length': 'id-length', 'node_id-wrong-length': 'id-length',
+    'bad-packet-type': 'envelope', 'response-without-payload': 'envelope', 'error-field-missing': 'envelope',
+    'unknown-method': 'unknown-method',
+    'find-without-key': 'args-do-not-fit', 'find-key-wrong-length': 'args-do-not-fit', 'store-too-few-args': 'args-do-not-fit',
+    'store-hash-wrong-length': 'args-do-not-fit', 'store-port-out-of-range': 'args-do-not-fit',
+    'store-token-malformed': 'store-token-malformed', 'real-decoder-rejects': 'undecodable',
+}
+
+
 # ------------------------------------------------------------------------------ the monitor around datagram_received
 def feed(rec, node, data, sender, origin, spec=None, single=False):
     """one datagram through the real handler with all N3/N4/N1out oracles.  returns True if no violation"""
@@ -516,24 +659,36 @@ def feed(rec, node, data, sender, origin, spec=None, single=False):
     addr, _nid = node.sender(sender)
     skind = sender['kind']
     verdict, reason, info = classify(data)
-    # does the REAL decoder refuse it?  (pure function call, no node state)
+    # ---- does the REAL decoder refuse it / return at all?  (pure function call, no node state)
     real_exc = None
-    try:
-        decode_datagram(data)
-    except BaseException as e:  # noqa -- any refusal counts
-        if isinstance(e, (KeyboardInterrupt, SystemExit, MemoryError)):
-            raise
-        real_exc = e
-    if real_exc is not None and verdict != 'malformed':
+    hang = None
+    if _NEG_LEN.search(data):
+        st, detail = traced_decode(data)
+        rec.hit('hang.traced_upfront')
+        if st in ('cycle', 'line-budget'):
+            hang = (st, detail)
+    if hang is None:
+        st, val = call_with_watchdog(lambda: decode_datagram(data), 2.0)
+        if st == 'raised':
+            real_exc = val
+        elif st == 'timeout':
+            st2, detail = traced_decode(data)
+            if st2 in ('cycle', 'line-budget'):
+                hang = (st2, detail)
+            else:
+                rec.log('slow_decode_over_2s_but_terminates')
+                real_exc = None if st2 == 'returned' else RuntimeError('raised (slow)')
+    if (real_exc is not None or hang) and verdict != 'malformed':
         rec.log(f'real_decoder_rejects_what_recogniser_accepts:{verdict}:{reason}')
         verdict, reason = 'malformed', 'real-decoder-rejects'
-    token_live = node.tokens == 'live'
     if verdict != 'malformed' and info.get('token_malformed'):
-        if token_live:
+        if node.tokens == 'live':
             verdict, reason = 'malformed', 'store-token-malformed'
             rec.hit('N3.live_token_malformed_store_fed')
         else:
             verdict, reason = 'ambiguous', 'store-token-malformed-in-grace-period'
+    group = GROUP.get(reason, reason)
+    decoder = 'decoder-refused' if real_exc is not None else 'decoder-accepted'
     judged_sender = skind in ('fresh', 'contact', 'spoof')
     rec.case(b'%s|%s|' % (skind.encode(), node.tokens.encode()) + data,
              sample={'origin': origin, 'datagram': data[:96], 'len': len(data), 'class': f'{verdict}:{reason}'}
@@ -542,22 +697,8 @@ def feed(rec, node, data, sender, origin, spec=None, single=False):
     rec.hit('sender.' + skind)
     rec.hit('tokens.' + node.tokens)
     rec.hit(f'class.{verdict}')
-
-    node.tick()
-    before = node.snap()
-    fail_before = node.failure_entry(addr)
-    nout = len(node.out)
-    escaped = None
-    try:
-        node.proto.datagram_received(data, addr)
-    except BaseException as e:  # noqa -- this IS the observation
-        if isinstance(e, (KeyboardInterrupt, SystemExit, MemoryError)):
-            raise
-        escaped = e
-    node._snap = None
-    after = node.snap()
-    fail_after = node.failure_entry(addr)
     ok = True
+    short = data[:80].hex() + ('..' if len(data) > 80 else '')
 
     def report(key, what, witness):
         nonlocal ok
@@ -568,7 +709,8 @@ def feed(rec, node, data, sender, origin, spec=None, single=False):
         w = dict(witness() if callable(witness) else witness)
         w.update({'datagram': data if len(data) <= 2048 else {'len': len(data), 'head': data[:200]}, 'origin': origin,
                   'sender': sender, 'sender_address': list(addr), 'tokens': node.tokens, 'class': f'{verdict}:{reason}',
-                  'real_decoder': None if real_exc is None else f'{type(real_exc).__name__}: {str(real_exc)[:120]}'})
+                  'real_decoder': ('never returns' if hang else None) if real_exc is None
+                  else f'{type(real_exc).__name__}: {str(real_exc)[:120]}'})
         cand = None
         if not single:
             sp = spec if spec is not None else (spec_of(data) if len(data) <= 8192 else None)
@@ -579,7 +721,52 @@ def feed(rec, node, data, sender, origin, spec=None, single=False):
         else:
             _PENDING.append((key, what, w, cand))   # emitted by flush_pending() once this batch's node is closed
 
-    short = data[:80].hex() + ('..' if len(data) > 80 else '')
+    # ---- "is dropped": the handler has to RETURN.  A datagram on which the decoder provably never returns is fed to
+    # the node itself only once per process (it costs the full watchdog time); the handler calls the same decoder first.
+    if hang:
+        rec.hit('hang.detected')
+        fed = None
+        if (_HANG_FED[0] < 1 or single) and not _IN_REPRO[0]:
+            _HANG_FED[0] += 1
+            node.tick()
+            st, val = call_with_watchdog(lambda: node.proto.datagram_received(data, addr), 1.5)
+            fed = {'ok': 'returned', 'raised': f'raised {type(val).__name__}', 'timeout': 'did not return within 1.5 s'}[st]
+            node._snap = None
+            where = lbry_frame(val)[0] if st == 'timeout' else '?'
+            rec.hit('hang.fed_to_handler')
+            if st != 'timeout':
+                rec.log('hang.decoder_loops_but_handler_returned')
+        else:
+            where = None
+        fn = (hang[1].split(' ')[0] if hang[0] == 'cycle' else hang[1].split('innermost ')[-1].split(':')[0])
+        report(f'C17/hang/{"infinite-loop" if hang[0] == "cycle" else "no-return"}@{fn}',
+               f'the decoder never returns for a {len(data)}-byte datagram [{reason}; {origin}] {short}: {hang[1]}',
+               {'clause': 'N3', 'proof': hang[1], 'kind': hang[0], 'datagram_received': fed or 'not fed again (same decoder call, '
+                'protocol.py datagram_received -> decode_datagram); fed once per process', 'interrupted_in': where})
+        rec.hit('N3.malformed_fed')
+        return ok
+
+    node.tick()
+    if skind == 'contact':      # the contact keeps answering OUR requests between its datagrams, i.e. stays a good contact
+        node.pm.report_last_replied(addr[0], addr[1])
+        node.tick()
+    before = node.snap()
+    fail_before = node.failure_entry(addr)
+    all_fail_before = dict(node.pm._rpc_failures.cache) if skind == 'spoof' else None
+    nout = len(node.out)
+    st, val = call_with_watchdog(lambda: node.proto.datagram_received(data, addr), 10.0)
+    escaped = val if st == 'raised' else None
+    if st == 'timeout':
+        fn, where = lbry_frame(val)
+        report(f'C17/hang/no-return@{fn}', f'datagram_received did not return within 10 s for a {len(data)}-byte datagram '
+                                           f'[{reason}; {origin}] {short} (interrupted at {where})',
+               {'clause': 'N3', 'interrupted_at': where})
+        node._snap = None
+        return ok
+    node._snap = None
+    after = node.snap()
+    fail_after = node.failure_entry(addr)
+
     # ---- "never raises out of the node's datagram handler" (N3 and N4)
     if escaped is not None:
         fn, where = lbry_frame(escaped)
@@ -594,9 +781,9 @@ def feed(rec, node, data, sender, origin, spec=None, single=False):
     else:
         rec.hit('N3.no_raise_held' if verdict == 'malformed' else 'N4.no_raise_held')
     changed = [k for k in before if before[k] != after[k]]
-    if 'tcp_port' in changed:       # only a CHANGED port of an identity present before and after (additions belong to data_store)
-        b, a = dict(before['tcp_port']), dict(after['tcp_port'])
-        if all(b[k] == a[k] for k in b if k in a):
+    if 'tcp_port' in changed:       # only a CHANGED port of an identity present before and after, and only when the
+        b, a = dict(before['tcp_port']), dict(after['tcp_port'])        # datagram was otherwise refused
+        if all(b[k] == a[k] for k in b if k in a) or 'data_store' in changed or 'routing_table' in changed:
             changed.remove('tcp_port')
     if verdict == 'malformed':
         rec.hit('N3.malformed_fed')
@@ -606,23 +793,34 @@ def feed(rec, node, data, sender, origin, spec=None, single=False):
             if escaped is None:
                 rec.hit('N3.failure_recorded_checked')
                 if fail_after == fail_before:
-                    suffix = '@claimed-contact-id' if skind == 'spoof' else ''
                     handled = len(node.out) > nout
-                    report(f'C17/N3/failure-not-recorded/{reason}{suffix}',
+                    elsewhere = None
+                    if skind == 'spoof':
+                        elsewhere = [list(k) for k, v in node.pm._rpc_failures.cache.items() if all_fail_before.get(k) != v]
+                    if elsewhere:
+                        key = 'C17/N3/failure-not-recorded/recorded-for-claimed-contact-not-sender'
+                    else:
+                        key = f'C17/N3/failure-not-recorded/{group}:{decoder}'
+                    report(key,
                            f'no failure recorded for sender {addr[0]}:{addr[1]} after a {verdict} datagram [{reason}; {origin}] '
-                           f'{short}' + (' -- the node ANSWERED it' if handled else ''),
+                           f'{short}' + (' -- the node ANSWERED it' if handled else '') +
+                           (f' -- a failure was recorded for {elsewhere} instead' if elsewhere else ''),
                            {'failure_entry_before': fail_before, 'failure_entry_after': fail_after,
                             'node_replied_with': [d[:120] for _, d in node.out[nout:]],
-                            'failures_recorded_elsewhere': _failure_delta(node, addr)})
+                            'failure_recorded_for_other_address': elsewhere})
+                else:
+                    rec.hit('N3.failure_recorded_held')
             # ---- "never changes the routing table or the stored announcements"
             rec.hit('N3.state_unchanged_checked')
             for comp in changed:
                 if comp == 'ping_queue':
-                    rec.log('N3.ping_queue_changed_by_malformed:' + reason)
+                    rec.log('N3.ping_queue_changed_by_malformed:' + group)
                     continue
-                report(f'C17/N3/state-changed/{reason}:{comp}',
+                report(f'C17/N3/state-changed/{group}:{decoder}:{comp}',
                        f'{comp} changed by a {verdict} datagram [{reason}; {origin}] {short}',
                        {'component': comp, 'before': _diffable(before[comp]), 'after': _diffable(after[comp])})
+            if not changed:
+                rec.hit('N3.state_unchanged_held')
         else:
             rec.log(f'unjudged_sender:{skind}:failure_recorded={fail_after != fail_before}')
     else:
@@ -672,10 +870,13 @@ def flush_pending(rec):
 def _reproduces(case, key):
     from vlib import core
     r2 = core.Recorder(ID, 'quick', 0, budget_s=3600)
+    _IN_REPRO[0] = True
     try:
         run_single(r2, case)
     except Exception:  # noqa -- a reproduction attempt must not kill the batch
         return False
+    finally:
+        _IN_REPRO[0] = False
     return r2.violation_counts.get(key, 0) > 0
 
 
@@ -1130,9 +1331,11 @@ def run_replies(rec, case):
                     data = bytes(b)
                 if how == 'truncated':
                     data = data[:r.randrange(len(data))]
+                node._snap = None
                 feed(rec, node, data, sender, f'replies:{how}:{name}')
                 await asyncio.sleep(0)
                 if how == 'twice':
+                    node._snap = None
                     feed(rec, node, data, sender, f'replies:second-copy:{name}')
                     await asyncio.sleep(0)
                 node.vt[0] += 6.0           # let an unanswered request time out
@@ -1325,8 +1528,10 @@ def check_addr_reverse(rec, blob):
             rec.violation('C17/N2/decode-refuses-valid', f'decode_compact_address refused {blob[:6].hex()}..', {'blob': blob})
         return
     except Exception as e:  # noqa
-        rec.violation(f'C17/N2/raises/{type(e).__name__}', f'decode_compact_address({blob[:8].hex()}.., {len(blob)} bytes) raised {e!r}',
-                      {'blob': blob})
+        if port == 0 or len(blob) != 54:
+            rec.log(f'N2.decode_of_invalid_compact_address_raises_{type(e).__name__}')     # totality not in the statement
+        else:
+            rec.violation(f'C17/N2/raises/{type(e).__name__}', f'decode_compact_address({blob[:8].hex()}..) raised {e!r}', {'blob': blob})
         return
     rec.hit('N2.reverse_checked')
     if port == 0 or len(blob) != 54:
@@ -1426,27 +1631,26 @@ def gen_cases(rng, tier, shard, nshards):
                                                           '192.168.100.200'][i % 6],
                    'lo': 1 + (i * 10923) % 65535, 'count': 65535 if not quick else 10923}
     # -- seeded random families, per shard
-    n = 1 if quick else 12
-    for j in range(n * 3):
+    for j in range(2 if quick else 36):
         yield {'fam': 'msg', 'seed': rng.getrandbits(48), 'count': 400}
         yield {'fam': 'mutn', 'node': {'seed': rng.randrange(3), 'tokens': rng.choice(modes)}, 'tseed': rng.getrandbits(30),
-               'seed': rng.getrandbits(48), 'count': 1500, 'sender': rng.choice(senders)}
+               'seed': rng.getrandbits(48), 'count': 700 if quick else 1500, 'sender': rng.choice(senders)}
         yield {'fam': 'rand', 'node': {'seed': rng.randrange(3), 'tokens': rng.choice(modes)}, 'seed': rng.getrandbits(48),
-               'count': 500, 'maxlen': 65536, 'sender': rng.choice(senders)}
+               'count': 200 if quick else 500, 'maxlen': 65536, 'sender': rng.choice(senders)}
         yield {'fam': 'valid', 'node': {'seed': rng.randrange(3), 'tokens': rng.choice(modes)}, 'seed': rng.getrandbits(48),
                'count': 400, 'sender': rng.choice(senders + [{'kind': 'fresh', 'i': rng.randrange(1000)},
                                                              {'kind': 'contact', 'i': rng.randrange(36)}])}
         yield {'fam': 'replies', 'node': {'seed': rng.randrange(3), 'tokens': rng.choice(modes)}, 'seed': rng.getrandbits(48), 'count': 60}
         yield {'fam': 'addr', 'mode': 'rand', 'seed': rng.getrandbits(48), 'count': 3000}
         yield {'fam': 'prim', 'seed': rng.getrandbits(48), 'count': 300}
-        if j % 3 == 0:
+        if j % 2 == 0:
             yield {'fam': 'valid', 'node': {'seed': 0, 'tokens': rng.choice(modes)}, 'seed': rng.getrandbits(48), 'count': 60,
                    'sender': {'kind': rng.choice(['badaddr', 'lowport']), 'i': rng.randrange(12)}}
             yield {'fam': 'retype', 'node': {'seed': 0, 'tokens': 'live'}, 'tseed': rng.getrandbits(30),
                    'template': rng.choice(REQUEST_TEMPLATES), 'sender': {'kind': rng.choice(['badaddr', 'lowport']), 'i': rng.randrange(12)}}
 
 
-FIXED = [b'', b'd', b'l', b'de', b'le', b'i', b'e', b'i0e', b'0:', b'dde', b'lle', b'd0:e', b'd0:0:e', b'di0ee', b'di0ei0ee',
+FIXED = [b'', b'd', b'l', b'l-3:', b'd-3:', b'de', b'le', b'i', b'e', b'i0e', b'0:', b'dde', b'lle', b'd0:e', b'd0:0:e', b'di0ee', b'di0ei0ee',
          b'di0ei1ee', b'di0ei2ee', b'di0ei3ee', b'di0ei0ei1e0:e', b'd1:0i0ee', b'\x00', b'\xff' * 100, b'l' * 5000, b'd' * 5000]
 
 
